@@ -135,6 +135,16 @@ theorem C09_acceptance_static (P : Prim) (fuel : Nat) (func : Expr) (args : List
     (interp P (fuel + 1) (.call func args kwargs) st).2 = (interp P (fuel + 1) (.call func args kwargs) st').2 := by
   rw [C09_refusal_first P fuel func args kwargs st h, C09_refusal_first P fuel func args kwargs st' h]
 
+/-- Known finding (low severity): the guarantee above is about `Attribute` nodes and constructor resolution. A bare
+    *Name* that is not in the namespace — whatever its spelling, `__class__` included — is looked up on the
+    whitelist module object (`getattr(dynamic_fieldtype, id)`): the model logs a `fallback` event and returns what
+    that lookup returns. Nothing reached this way can be called (`C09_calls_allowed`), but it is not refused. -/
+theorem C09_name_fallback_reads_any_name (P : Prim) (fuel : Nat) (id : String) (st : St)
+    (h : inData st id = false) :
+    interp P (fuel + 1) (.name id) st = ({ st with trace := st.trace ++ [.fallback id] }, P.dynft id) := by
+  have hk : "Name" ∈ Gen.evalNodeKinds := by decide
+  simp [interp, evalStep, Expr.kind, hk, h, M.bind, M.log, M.lift]
+
 /-- the record invariant packaged for the generic preservation lemmas -/
 def C09_recordInvariant (P : Prim) (r0 : PVal) : Invariant P where
   inv s := s.record = r0
@@ -175,6 +185,7 @@ example : C09_targetAccepted (.name "path") = true := by decide
 example : C09_targetAccepted (.name "upper") = true := by decide
 example : C09_targetAccepted (.attr (.attr (.name "net") "ipv4") "Subnet") = true := by decide
 example : C09_targetAccepted (.attr rs "upper") = false := by decide
+example : inData st0 "__class__" = false := by decide
 /-- an allowed call is really logged (the invariant is not vacuous) -/
 example : (interp adv 5 (.call (.name "upper") [rs] []) st0).1.trace.length = 2 := by decide
 end C09_nonvacuous
